@@ -1,3 +1,27 @@
 -- GENERATED: axiom audit for Props/C13*.lean
 import Props.C13
-#print axioms SpyneModel.Props.C13.stub
+#print axioms SpyneModel.Props.C13.facts_good
+#print axioms SpyneModel.Props.C13.builtin_statuses_are_three_digit
+#print axioms SpyneModel.Props.C13.too_long_status
+#print axioms SpyneModel.Props.C13.never_crashes
+#print axioms SpyneModel.Props.C13.start_response_exactly_once
+#print axioms SpyneModel.Props.C13.start_response_before_body
+#print axioms SpyneModel.Props.C13.status_line
+#print axioms SpyneModel.Props.C13.body_chunks_are_bytes
+#print axioms SpyneModel.Props.C13.content_length_exact
+#print axioms SpyneModel.Props.C13.unchunked_sends_content_length
+#print axioms SpyneModel.Props.C13.abort_respected
+#print axioms SpyneModel.Props.C13.bounded_read
+#print axioms SpyneModel.Props.C13.read_within_declared
+#print axioms SpyneModel.Props.C13.reads_are_blockwise
+#print axioms SpyneModel.Props.C13.reader_terminates
+#print axioms SpyneModel.Props.C13.reads_precede_user_code_and_response
+#print axioms SpyneModel.Props.C13.too_long_iff_declared_over_limit
+#print axioms SpyneModel.Props.C13.too_long_refused_partial
+#print axioms SpyneModel.Props.C13.too_long_reads_nothing_runs_nothing
+#print axioms SpyneModel.Props.C13.undeclared_overlong_body_is_truncated
+#print axioms SpyneModel.Props.C13.user_code_needs_complete_document
+#print axioms SpyneModel.Props.C13.user_code_at_most_once
+#print axioms SpyneModel.Props.C13.context_closed_once_after_body
+#print axioms SpyneModel.Props.C13.wsgi_close_once_after_body
+#print axioms SpyneModel.Props.C13.wsdl_conformance
